@@ -127,3 +127,14 @@ def roundtrip_records(ck, m, record):
 def reflow_documents(ck, m):
     """C10 hook: documents with word tables for the reflow law (the DocGen documents do not carry word tables yet)."""
     return []
+
+
+_texts_cache = {}
+
+
+def texts(ck, n):
+    """Source texts of n simulated DocGen documents (full spelling ranges), for the checks that work on arbitrary inputs."""
+    if n not in _texts_cache:
+        docs = concretise(simulate(ck, 'DocGenSim.cfg', n))
+        _texts_cache[n] = [d['src'] for d in dedupe(docs)]
+    return list(_texts_cache[n])
